@@ -337,6 +337,14 @@ pub fn run_stream(file: &[u8], options: &Options, cuts: &[usize]) -> (Verdict, V
                 }
             }
             start = end.max(start);
+            // a third of the runs (decided by the input) call flush() after every piece: whatever
+            // flush hands over early, the sink must end up with exactly the size in effect
+            if file.len() % 3 == 1 {
+                use std::io::Write;
+                if let Err(e) = s.flush() {
+                    return Err(format!("flush: {}", e));
+                }
+            }
         }
         s.finish().map(|_| ()).map_err(|e| e.to_string())
     });
